@@ -13,6 +13,12 @@ R02b order and once-only structure: PInterpreter._visit_children iterates node.c
      node and sets node.started only after the threshold wait; in visit_BlankNode/visit_CommentNode
      node.started = True / node.completed = True are reachable only when the node no longer has only
      trailing whitespace after it (so lines appended there later still run).
+R02c macro invocations are bracketed: in visit_CallMacroNode the body reset (`<macro>.reset_runtime_state(recursive=True)`)
+     is guarded by a comparison of two counters of the macro node; the one incremented together with the reset counts
+     started invocations, the other finished ones. Every normal path from the body visit (`yield from` the children visitor
+     on the macro node) to the end of the generator increments the finished counter: otherwise the next call of the same
+     macro takes the "complete a started call" branch and continues in the middle of the stale body - lines not started
+     from the first, and without the Call macro having started. The reset must be recursive (all lines start again).
 Decides these shapes; exactly-once and ordering over all nestings and timings are runtime matters.
 """
 from __future__ import annotations
@@ -182,3 +188,58 @@ def run(ctx) -> None:
         if n_marks < 2:
             raise AnchorError(f"{name} (-> {f.short}): the started/completed marks of a whitespace line were not found "
                               "(the rule would pass vacuously)")
+
+    # ---- R02c
+    ctx.rule("R02c", "every macro invocation that ends is counted as finished; each new invocation resets the body")
+    f = pi.methods.get("visit_CallMacroNode")
+    if f is None:
+        raise AnchorError("PInterpreter.visit_CallMacroNode missing")
+    ctx.analysed(f)
+    g = cfg_of(f)
+    resets = [(n, c) for n in g.nodes if n.kind == "stmt" for c in n.calls() if call_attr(c) == "reset_runtime_state"
+              and isinstance(c.func, ast.Attribute) and isinstance(c.func.value, ast.Name)]
+    if len(resets) != 1:
+        raise AnchorError(f"visit_CallMacroNode: expected one reset_runtime_state call on the macro node, found {len(resets)}")
+    rn, rc = resets[0]
+    mv = rc.func.value.id
+    rec = [k.value for k in rc.keywords if k.arg == "recursive"] + list(rc.args[:1])
+    inst = "visit_CallMacroNode: a new invocation resets the whole macro body"
+    if rec and isinstance(rec[0], ast.Constant) and rec[0].value is True:
+        ctx.ok("R02c", inst)
+    else:
+        ctx.fail("R02c", f, rn.ast, inst, "the macro body is not reset recursively: lines of an earlier invocation stay completed and are skipped")
+    # the guard of the reset: a comparison of two attributes of the macro node
+    counters: list[str] = []
+    for cond, val in g.conditions_at(rn):
+        for c in ast.walk(cond):
+            if isinstance(c, ast.Compare) and len(c.ops) == 1:
+                sides = [c.left, c.comparators[0]]
+                if all(isinstance(x, ast.Attribute) and isinstance(x.value, ast.Name) and x.value.id == mv for x in sides):
+                    counters = [x.attr for x in sides]
+    if len(counters) != 2:
+        raise AnchorError("visit_CallMacroNode: the started/finished comparison guarding the reset was not recognised")
+
+    def incs(n, attr):
+        return n.kind == "stmt" and isinstance(n.ast, ast.AugAssign) and isinstance(n.ast.op, ast.Add) and isinstance(n.ast.target, ast.Attribute) \
+            and isinstance(n.ast.target.value, ast.Name) and n.ast.target.value.id == mv and n.ast.target.attr == attr \
+            and isinstance(n.ast.value, ast.Constant) and n.ast.value.value == 1
+    # the started counter is the one incremented on the reset branch (dominated by the reset)
+    started = [a for a in counters if any(incs(n, a) and g.dominates(rn, n) for n in g.nodes)]
+    if len(started) != 1:
+        raise AnchorError(f"visit_CallMacroNode: which of {counters} counts started invocations was not recognised")
+    finished = [a for a in counters if a != started[0]][0]
+    body = [n for n in g.nodes if n.kind == "stmt" and any(isinstance(y, ast.YieldFrom) and isinstance(y.value, ast.Call)
+            and any(isinstance(a, ast.Name) and a.id == mv for a in y.value.args) for y in ast.walk(n.ast))]
+    if len(body) != 1:
+        raise AnchorError("visit_CallMacroNode: the body visit (`yield from` on the macro node) was not recognised")
+    inst = f"visit_CallMacroNode: every invocation that ends increments the macro's {finished}"
+    p = g.path_to_exit_avoiding([d for d, l in g.succ[body[0].id] if l != "exc"], lambda n: incs(n, finished))
+    others = [n for n in g.nodes if n.kind == "stmt" and not incs(n, finished) and not incs(n, started[0]) and any(
+        t.attr in counters and isinstance(t.value, ast.Name) and t.value.id == mv for t, v, s_ in assigned_attrs(n.ast))]
+    if p is None and not others:
+        ctx.ok("R02c", inst)
+    elif others:
+        ctx.fail("R02c", f, others[0].ast, inst, "the invocation counters are written other than by the two increments")
+    else:
+        ctx.fail("R02c", f, body[0].ast, inst, "an invocation can end without being counted as finished: the next call of this macro skips the "
+                 "reset and continues in the middle of the stale body (lines not started from the first, Call macro not started)", p)
